@@ -297,6 +297,20 @@ def build(reg, src, evaluator=True, verify_evaluator=True):
         reg.replays.append((r'KlongContext\.(__getitem__|__setitem__|__delitem__)|set_context_var', rp.replay_scopes))
         return
     reg.extra_checks.append(rp.check_merge_projections)
+
+    # "the call form equals the body with the arguments substituted" also on the compiled fast path: whatever goes wrong inside
+    # compiled code (ZeroDivisionError of Python's `/` where 1%0 is :undefined, ...) must end in the interpreter path, as in the
+    # substituted body - C05's contract of eval, re-verified here
+    def compiled_path_falls_back(ctx):
+        from pyvc.subverify import subverify
+        from contracts import c05
+        import replay.c03 as rp3
+        rows, _ = subverify(src, 'C03', c05, [KI + 'eval'], replay=rp3.replay_call_vs_body,
+                            why='an exception raised by compiled code falls back to the interpreter (call form == substituted body)')
+        ctx['eng'].verified[KI + 'eval (compiled-path fallback)'] = dict(sha=src.sha(src.find(KI + 'eval')), backend='z3 (contract of contracts/c05.py)')
+        return rows
+    compiled_path_falls_back.__name__ = 'compiled-path-falls-back'
+    reg.extra_checks.append(compiled_path_falls_back)
     reg.replays.append((r'KlongContext\.(__getitem__|__setitem__|__delitem__)|set_context_var', rp.replay_scopes))
     reg.replays.append((r'_eval_fn#post(_exc)?1', rp.replay_application))
     reg.replays.append((r'eval\[conditional\]', rp.replay_cond))
